@@ -32,9 +32,47 @@ FORWARD = {'add_component': ('add_component', False),
            'delete': ('delete_entity', False)}
 
 
+PROGRAM = [None]
+
+
+def _assert_only_call(f, s):
+    """`helper(..)` statement whose helper consists of assertions only."""
+    if not (isinstance(s, ast.Expr) and isinstance(s.value, ast.Call)):
+        return False
+    d = dotted(s.value.func) or ''
+    program = PROGRAM[0]
+    g = None
+    r = program.lookup(f.module, d) if program else None
+    if r and r[0] == 'func':
+        g = r[1]
+    elif d.startswith('self.') and f.cls is not None and d.count('.') == 1:
+        g = program.resolve_method(f.cls, d.split('.')[1])
+    if g is None:
+        return False
+    body = strip_docstring(g.node.body)
+    return bool(body) and all(isinstance(x, ast.Assert) for x in body)
+
+
 def _body(f):
     return [s for s in strip_docstring(f.node.body)
-            if not isinstance(s, ast.Assert)]
+            if not isinstance(s, ast.Assert) and not _assert_only_call(f, s)]
+
+
+def _stores(fnode):
+    """{target text: value text} for (tuple) assignments in a function."""
+    out = {}
+    for a in ast.walk(fnode):
+        if not isinstance(a, ast.Assign):
+            continue
+        for t in a.targets:
+            if isinstance(t, (ast.Tuple, ast.List)) and isinstance(
+                    a.value, (ast.Tuple, ast.List)) and len(t.elts) == len(
+                        a.value.elts):
+                for x, y in zip(t.elts, a.value.elts):
+                    out[norm(x)] = norm(y)
+            else:
+                out[norm(t)] = norm(a.value)
+    return out
 
 
 def check_forwarders(program, rep):
@@ -94,8 +132,7 @@ def check_on_add(program, rep):
     ok = False
     if f is not None:
         ps = f.params()
-        sets = {norm(t): norm(a.value) for a in ast.walk(f.node)
-                if isinstance(a, ast.Assign) for t in a.targets}
+        sets = _stores(f.node)
         ok = len(ps) == 3 and ps[1:] == ['entity', 'world'] and sets.get(
             'self.entity') == 'entity' and sets.get('self.world') == 'world'
     rep.check(ok, 'C19.on_add', site, 'def on_add(self, entity, world)',
@@ -178,6 +215,48 @@ SRC_M, SRC_A, SRC_D, NONE = 'init_methods[T]', 'prefixed method', \
     '_default_init', 'None'
 
 
+def _helper_return(call):
+    """For `helper(args)` with helper a private in-repo function whose
+    paths all return the same canonical expression: that expression with the
+    parameters replaced by the arguments; else None."""
+    program = PROGRAM[0]
+    d = dotted(call.func) or ''
+    if program is None or call.keywords:
+        return None
+    mod = program.modules.get('desper.logic')
+    g = None
+    skip = 0
+    r = program.lookup(mod, d) if mod else None
+    if r and r[0] == 'func' and d.split('.')[-1].startswith('_'):
+        g = r[1]
+    elif d.startswith('self._') and d.count('.') == 1:
+        g = program.resolve_method(program.cls('Prototype'), d.split('.')[1])
+        skip = 1
+    if g is None:
+        return None
+    from dlint.walk import Walker, Domain
+
+    class D(Domain):
+        def resolve_call(self, st, c, walker):
+            return walker.resolve_helper(st, c)
+    exits = [e for e in Walker(program, D(program)).run(g, g.cls)
+             if e.kind != 'raise']
+    texts = {e.payload.text for e in exits if e.kind == 'return'
+             and e.payload is not None}
+    if len(texts) != 1 or len(exits) != 1:
+        return None
+    params = g.params()[skip:]
+    if len(params) != len(call.args):
+        return None
+    m = dict(zip(params, call.args))
+    import copy
+
+    class R(ast.NodeTransformer):
+        def visit_Name(self, n):
+            return copy.deepcopy(m[n.id]) if n.id in m else n
+    return R().visit(ast.parse(texts.pop(), mode='eval').body)
+
+
 class _ProtoEval:
     def __init__(self, T, in_methods, has_attr, env):
         self.T, self.inm, self.has, self.env = T, in_methods, has_attr, env
@@ -201,6 +280,9 @@ class _ProtoEval:
                 'self.init_methods' and norm(n.slice) == self.T:
             return SRC_M
         if isinstance(n, ast.Call):
+            h = _helper_return(n)
+            if h is not None:
+                return self.ev(h)
             f = norm(n.func)
             if f == 'self.init_methods.get' and n.args and norm(
                     n.args[0]) == self.T:
@@ -370,6 +452,7 @@ def check_update(program, rep):
 
 
 def run(program, rep, tier):
+    PROGRAM[0] = program
     check_forwarders(program, rep)
     check_on_add(program, rep)
     check_refs(program, rep)
